@@ -3,7 +3,7 @@ reg("C18", "data transforms and their inverses compose to the identity",
     rule="case = one transform family in {Hermite anamorphosis, empirical anamorphosis (normal score / gaussian / lognormal dilution), "
          "Hermite polynomials, PCA, MAF, normal score, rotation} with a data set drawn from the case PRNG (lognormal / bimodal / "
          "uniform / exponential / gaussian, optional ties, TEST values, selection, weights; n 20-2000; Hermite orders 3-100; "
-         "2-6 variables with optional near-collinearity); forward-then-inverse is compared with the start inside the interval the "
+         "2-6 variables with optional near-collinearity; one PCA/MAF case in three re-fits an object already fitted on another data set); forward-then-inverse is compared with the start inside the interval the "
          "transform reports, with tolerance = bisection tolerance x local slope (Hermite), interpolation round-off (empirical), "
          "c.eps.kappa (PCA/MAF); orthonormality by Gauss-Hermite quadrature in long double; distinct = distinct (family, "
          "distribution, ties, TEST, options) signatures with >= 1 oracle evaluation",
